@@ -207,7 +207,7 @@ def _bg_inv(E, i):
 
 def register_best_gmm(reg):
     reg.add(Contract(
-        BG, properties=('C05',),
+        BG, properties=('C05', 'C08'),
         params={'abics': ArrOf('float'), 'mode': Const('delta'), 'min_prob': Float(nan=False), 'delta_mul_gain': Float(nan=False)},
         cases=[('mode=delta', {'mode': Const('delta')}), ('mode=unknown', {'mode': Const('no-such-mode')})],
         result=Int(),
